@@ -158,3 +158,28 @@ func (p *Prog) pmFor(n ast.Node) map[ast.Node]ast.Node {
 	}
 	return nil
 }
+
+// isConjunctionOf reports whether cond is exactly the conjunction of the
+// given atoms (whitespace-free source text; a leading '!' for a negated
+// atom), in any order and with any parenthesisation or De Morgan form.
+func (p *Prog) isConjunctionOf(cond ast.Expr, atoms ...string) bool {
+	got := conjuncts(cond, true)
+	if len(got) != len(atoms) {
+		return false
+	}
+	want := map[string]bool{}
+	for _, a := range atoms {
+		want[a] = true
+	}
+	for _, g := range got {
+		t := squash(p.text(g.Cond))
+		if !g.Val {
+			t = "!" + t
+		}
+		if !want[t] {
+			return false
+		}
+		delete(want, t)
+	}
+	return len(want) == 0
+}
